@@ -293,12 +293,14 @@ var c17RecvAPI = []string{"ReceiveFrame", "ReceiveFrameWithEnd", "ReceiveComplet
 // Both directions of the message layer use these (message.putSecretExpr / message.getSecretString).
 var c17BothAPI = []string{"PrepareCryptoForSecret", "RestoreCryptoAfterSecret"}
 
-// c17NilGuarded: accesses inside these functions that are dominated by the `<field> == nil` edge are
-// no-ops once a key is installed (premises verified in the rule).
-var c17NilGuarded = map[string]string{
-	"(*Stream).finalizeSendDigest": "finalSendDigest",
-	"(*Stream).finalizeRecvDigest": "finalRecvDigest",
-}
+// c17FrozenDigests: fields of Stream that are non-nil from the moment a key is installed (SetSymmetricKey
+// freezes both digests before it can succeed; premise verified in the rule). An access that every call
+// chain from the API reaches only under "gcm != nil" and "<field> == nil" therefore never executes on a
+// keyed stream, and on an unkeyed stream the other direction does not run the crypto path either: it is
+// a no-op for the send/receive partition. The exemption is by guard, not by function name: it holds
+// whether the freeze lives in finalizeSendDigest/finalizeRecvDigest, in a helper they are merged into,
+// or inline at the call site.
+var c17FrozenDigests = []string{"finalSendDigest", "finalRecvDigest"}
 
 type c17Eff struct {
 	fn    *ssa.Function
@@ -354,70 +356,163 @@ func (c *Ctx) c17effects(roots []*ssa.Function, streamT types.Type) []c17Eff {
 	return out
 }
 
-// c17guardSig: the Stream-field conditions whose edge dominates instruction in ("always" if none).
-func c17guardSig(fn *ssa.Function, in ssa.Instruction, streamT types.Type) string {
-	var parts []string
-	for _, b := range fn.Blocks {
-		ifi := blockIf(b)
-		if ifi == nil {
-			continue
-		}
-		a := condAtom(ifi.Cond)
-		var fv ssa.Value
-		nilTest := false
-		switch a.Op {
-		case token.ILLEGAL:
-			fv = a.X
-		case token.EQL, token.NEQ:
-			if isNilConst(a.Y) {
-				fv, nilTest = a.X, true
-			} else if isNilConst(a.X) {
-				fv, nilTest = a.Y, true
+// c17atom names the Stream-field condition an outcome of a branch establishes ("" if none): a boolean
+// field (f / !f) or a nil test of a field (f!=nil / f==nil).
+func c17atom(t c05Test, streamT types.Type) string {
+	isStream := func(base ssa.Value) bool {
+		pt, isP := base.Type().Underlying().(*types.Pointer)
+		return isP && types.Identical(pt.Elem(), streamT)
+	}
+	if t.hasNil {
+		for _, x := range append([]c05V{t.x}, t.xs...) {
+			if base, f, ok := fieldRead(stripConv(c05resolve(x.v))); ok && isStream(base) {
+				if t.isNil {
+					return f.Name() + "==nil"
+				}
+				return f.Name() + "!=nil"
 			}
 		}
-		if fv == nil {
-			continue
+		return ""
+	}
+	if base, f, ok := fieldRead(stripConv(c05resolve(t.v.v))); ok && isStream(base) {
+		if t.truth {
+			return f.Name()
 		}
-		base, f, ok := fieldRead(stripConv(fv))
-		if !ok {
-			continue
-		}
-		pt, isP := base.Type().Underlying().(*types.Pointer)
-		if !isP || !types.Identical(pt.Elem(), streamT) {
-			continue
-		}
-		onTrue := true // condition "field is set / non-nil" holds on the true edge
-		if nilTest {
-			onTrue = a.Op == token.NEQ
-		}
-		if a.Neg {
-			onTrue = !onTrue
-		}
-		tE, fE := Edge{b, 0}, Edge{b, 1}
-		pos, neg := f.Name(), "!"+f.Name()
-		if nilTest {
-			pos, neg = f.Name()+"!=nil", f.Name()+"==nil"
-		}
-		if !onTrue {
-			pos, neg = neg, pos
-		}
-		if instrDominatedByEdge(fn, tE, in) {
-			parts = append(parts, pos)
-		} else if instrDominatedByEdge(fn, fE, in) {
-			parts = append(parts, neg)
+		return "!" + f.Name()
+	}
+	return ""
+}
+
+// c17guards: the Stream-field conditions that dominate instruction in of fn, fn seen together with the
+// same-package helpers it calls (a guard written as a call of a predicate helper counts by what the
+// helper tests).
+func (c *Ctx) c17guards(fn *ssa.Function, in ssa.Instruction, streamT types.Type) []string {
+	root := c.c05rootFrame(fn)
+	cands := map[string]bool{}
+	for _, f := range root.all() {
+		for _, b := range f.fn.Blocks {
+			for _, o := range c05staticTests(f, b) {
+				if a := c17atom(o.t, streamT); a != "" {
+					cands[a] = true
+				}
+			}
 		}
 	}
+	var parts []string
+	for a := range cands {
+		atom := a
+		fact := func(t c05Test) bool { return c17atom(t, streamT) == atom }
+		if ok, _ := c05dominated(c05Tg{fr: root, in: in}, c05newCuts(fact)); ok {
+			parts = append(parts, atom)
+		}
+	}
+	sort.Strings(parts)
+	return uniq(parts)
+}
+
+func c17sig(parts []string) string {
 	if len(parts) == 0 {
 		return "always"
 	}
-	sort.Strings(parts)
-	return strings.Join(uniq(parts), "&")
+	return strings.Join(parts, "&")
+}
+
+// c17Chains answers guard questions along call chains inside one API group (the functions reachable
+// from the group's entry points).
+type c17Chains struct {
+	c       *Ctx
+	reach   map[*ssa.Function]bool
+	roots   map[*ssa.Function]bool
+	streamT types.Type
+	memo    map[c17ChainKey]bool
+	gmemo   map[c05FI][]string
+}
+
+type c17ChainKey struct {
+	in   ssa.Instruction
+	atom string
+}
+
+func (ch *c17Chains) guards(fn *ssa.Function, in ssa.Instruction) []string {
+	k := c05FI{nil, in}
+	if g, ok := ch.gmemo[k]; ok {
+		return g
+	}
+	g := ch.c.c17guards(fn, in, ch.streamT)
+	ch.gmemo[k] = g
+	return g
+}
+
+// callers: the plain call sites of fn inside the group.
+func (ch *c17Chains) callers(fn *ssa.Function) []CallSite {
+	if fn.Object() == nil {
+		return nil
+	}
+	var out []CallSite
+	for _, cs := range ch.c.callSites(fn.Object()) {
+		if ch.reach[cs.Fn] {
+			out = append(out, cs)
+		}
+	}
+	return out
+}
+
+// always: every call chain from an entry point of the group to instruction in of fn passes the
+// condition atom (locally, or at every call site of fn, transitively).
+func (ch *c17Chains) always(fn *ssa.Function, in ssa.Instruction, atom string, depth int) bool {
+	k := c17ChainKey{in, atom}
+	if v, ok := ch.memo[k]; ok {
+		return v
+	}
+	ch.memo[k] = false // recursion: not established
+	res := false
+	for _, g := range ch.guards(fn, in) {
+		if g == atom {
+			res = true
+		}
+	}
+	if !res && depth < InlineDepth && !ch.roots[fn] && len(ch.c.c05funcValueUses(fn)) == 0 {
+		sites := ch.callers(fn)
+		res = len(sites) > 0
+		for _, cs := range sites {
+			if _, plain := cs.Call.(*ssa.Call); !plain || !ch.always(cs.Fn, cs.Call, atom, depth+1) {
+				res = false
+				break
+			}
+		}
+	}
+	ch.memo[k] = res
+	return res
+}
+
+// attribute names the function(s) and guard signature a write is reported under: the writing function
+// with the conditions that dominate the write; a write that its own function does not guard at all (a
+// setter) is attributed to each calling function of the group with the conditions dominating the call.
+type c17Attr struct {
+	fn  *ssa.Function
+	sig string
+}
+
+func (ch *c17Chains) attribute(fn *ssa.Function, in ssa.Instruction, depth int) []c17Attr {
+	g := ch.guards(fn, in)
+	if len(g) > 0 || depth >= InlineDepth || ch.roots[fn] || len(ch.c.c05funcValueUses(fn)) > 0 {
+		return []c17Attr{{fn, c17sig(g)}}
+	}
+	sites := ch.callers(fn)
+	if len(sites) == 0 {
+		return []c17Attr{{fn, c17sig(g)}}
+	}
+	var out []c17Attr
+	for _, cs := range sites {
+		out = append(out, ch.attribute(cs.Fn, cs.Call, depth+1)...)
+	}
+	return out
 }
 
 func c17r3(c *Ctx) {
 	defer c05timer("c17r3")()
 	const rule = "C17-R3"
-	c.Doc(rule, "effect partition: no field of Stream written (transitively) by the send API group is read or written by the receive API group and vice versa, so one goroutine may send while another receives; writes in the two digest finalizers that are dominated by final…Digest == nil are exempt (no-ops once SetSymmetricKey has run; premises checked); a conflicting write is keyed by field, writing function and the Stream-field conditions that dominate it")
+	c.Doc(rule, "effect partition: no field of Stream written (transitively) by the send API group is read or written by the receive API group and vice versa, so one goroutine may send while another receives; accesses that every call chain of their group reaches only under gcm != nil and final{Send,Recv}Digest == nil are exempt (never executed once SetSymmetricKey has frozen the digests; premises checked; by guard, wherever the freeze is written: finalizer, merged helper or inline); a conflicting write is keyed by field, writing function and the Stream-field conditions that dominate it (guards written as predicate helpers count by what they test; an unguarded setter is attributed to its callers)")
 	st := c.LookupObj("stream", "Stream")
 	if st == nil {
 		c.AnchorMissing(rule, "stream.Stream")
@@ -439,97 +534,122 @@ func c17r3(c *Ctx) {
 	c.MinCount(rule, "field effects of the send group", len(send), 1)
 	c.MinCount(rule, "field effects of the receive group", len(recv), 1)
 
-	// exemption premises
+	// exemption premises: gcm is installed only by SetSymmetricKey / NewStreamWithCryptoState (or helpers only
+	// they call), and SetSymmetricKey cannot succeed without both digests frozen (non-nil)
 	gcm := c.needField(rule, "stream", "Stream", "gcm")
 	ssk := c.needFn(rule, "stream", "(*Stream).SetSymmetricKey")
 	imp := c.needFn(rule, "stream", "NewStreamWithCryptoState")
 	premiseOK := gcm != nil && ssk != nil && imp != nil
-	nilGuardFn := map[*ssa.Function]*types.Var{}
+	var frozen []*types.Var
 	if premiseOK {
 		var wr []*ssa.Function
 		poss := map[*ssa.Function]token.Pos{}
 		for _, a := range c.fieldAccesses(gcm) {
-			if a.Write {
+			if a.Write && !c.c17onlyCalledFrom(a.Fn, fnSet(ssk, imp), false, 0) {
 				wr = append(wr, a.Fn)
 				poss[a.Fn] = a.Instr.Pos()
+			} else if a.Write {
+				c.Ok(rule, "install Stream.gcm (finalizer exemption premise)@"+fnName(topFn(a.Fn)), fnName(topFn(a.Fn))+" is (a helper of) an allowed site of install Stream.gcm", a.Instr.Pos())
 			}
 		}
 		c.whoMay(rule, "install Stream.gcm (finalizer exemption premise)", wr, poss, fnSet(ssk, imp))
-		for name, field := range c17NilGuarded {
-			fin := c.needFn(rule, "stream", name)
-			fv := c.needField(rule, "stream", "Stream", field)
-			if fin == nil || fv == nil {
+		premiseOK = premiseOK && len(wr) == 0
+		sroot := c.c05rootFrame(ssk)
+		for _, name := range c17FrozenDigests {
+			fv := c.needField(rule, "stream", "Stream", name)
+			if fv == nil {
 				premiseOK = false
 				continue
 			}
-			nilGuardFn[fin] = fv
-			// SetSymmetricKey runs the finalizer before it can succeed
-			cuts := newCuts()
-			for _, cs := range callsIn(ssk, fin.Object()) {
-				cuts.AddInstrs(cs)
+			frozen = append(frozen, fv)
+			// every path to a success return stores a non-nil value into the field or finds it non-nil
+			cuts := c05newCuts(func(t c05Test) bool { return c17atom(t, streamT) == fv.Name()+"!=nil" })
+			for _, f := range sroot.all() {
+				allInstrs(f.fn, func(_ *ssa.BasicBlock, _ int, in ssa.Instruction) {
+					if st, ok := in.(*ssa.Store); ok && !isNilConst(st.Val) {
+						if fa, ok := st.Addr.(*ssa.FieldAddr); ok && fieldOfAddr(fa) == fv {
+							cuts.addInstr(f, st)
+						}
+					}
+				})
 			}
 			good := true
 			for _, t := range c.successTargets(ssk) {
-				if findPath(entryPoint(ssk), t.Target(), cuts) != nil {
+				if c05path(c05entryPt(sroot), c05errTg(sroot, t), &c05Cuts{edges: cuts.edges, instrs: cuts.instrs, facts: cuts.facts}) != nil {
 					good = false
 				}
 			}
-			c.Check(good, rule, fnName(ssk)+"#calls:"+fin.Name(), "every successful key installation has finalized this digest", "SetSymmetricKey can succeed without finalizing the digest: the finalizer exemption is unfounded", ssk.Pos())
+			c.Check(good, rule, fnName(ssk)+"#freezes:"+name, "every successful key installation has frozen this digest", "SetSymmetricKey can succeed without finalizing the digest: the finalizer exemption is unfounded", ssk.Pos())
 			premiseOK = premiseOK && good
-			// every other caller reaches the finalizer only with a key installed
-			for _, cs := range c.callSites(fin.Object()) {
-				if cs.Fn == ssk || fnPkg(cs.Fn) != fnPkg(fin) {
-					continue
-				}
-				on := []Edge{}
-				_, onE := fieldCondEdges(cs.Fn, gcm)
-				on = append(on, onE...)
-				dom, _ := c05passesOneOf(cs.Fn, on, cs.Call)
-				if !dom && cs.Fn.Name() == "FinalizeDigests" {
-					continue // public entry for plaintext sessions; in neither API group (checked below through reachability)
-				}
-				c.Check(dom, rule, fnName(cs.Fn)+"#calls:"+fin.Name(), "called only with a key installed (gcm != nil edge)", "finalizer reachable without a key installed: its write is not a no-op there", cs.Call.Pos())
-				premiseOK = premiseOK && dom
-			}
 		}
 	}
-	exempt := func(e c17Eff) bool {
-		fv, ok := nilGuardFn[e.fn]
-		if !ok || !premiseOK {
+	rootsOf := func(names []string) map[*ssa.Function]bool {
+		m := map[*ssa.Function]bool{}
+		for _, n := range names {
+			if f := c.LookupFn("stream", "(*Stream)."+n); f != nil {
+				m[f] = true
+			}
+		}
+		return m
+	}
+	mkChains := func(names []string) *c17Chains {
+		rs := rootsOf(append(append([]string{}, names...), c17BothAPI...))
+		var rl []*ssa.Function
+		for f := range rs {
+			rl = append(rl, f)
+		}
+		return &c17Chains{c: c, reach: c.reachableFns(rl, false), roots: rs, streamT: streamT, memo: map[c17ChainKey]bool{}, gmemo: map[c05FI][]string{}}
+	}
+	sendCh, recvCh := mkChains(c17SendAPI), mkChains(c17RecvAPI)
+	nEx := 0
+	// exempt: on every call chain of its group the access is guarded by "gcm != nil" and "<frozen digest> == nil"
+	exMemo := map[*c17Chains]map[ssa.Instruction]bool{sendCh: {}, recvCh: {}}
+	exempt := func(ch *c17Chains, e c17Eff) bool {
+		if !premiseOK {
 			return false
 		}
-		off, _ := fieldCondEdges(e.fn, fv)
-		dom, _ := c05passesOneOf(e.fn, off, e.in)
-		return dom
+		if v, ok := exMemo[ch][e.in]; ok {
+			return v
+		}
+		res := false
+		if ch.always(e.fn, e.in, gcm.Name()+"!=nil", 0) {
+			for _, fv := range frozen {
+				if ch.always(e.fn, e.in, fv.Name()+"==nil", 0) {
+					res = true
+				}
+			}
+		}
+		exMemo[ch][e.in] = res
+		return res
 	}
 	type conflict struct {
 		key, msg string
 		pos      token.Pos
 	}
 	found := map[string]conflict{}
-	nEx := 0
-	check := func(wside, oside string, ws, os []c17Eff) {
+	check := func(wside, oside string, wch, och *c17Chains, ws, os []c17Eff) {
 		other := map[*types.Var][]c17Eff{}
 		for _, e := range os {
-			if !exempt(e) {
-				other[e.field] = append(other[e.field], e)
-			}
+			other[e.field] = append(other[e.field], e)
 		}
 		for _, w := range ws {
-			if !w.write {
+			if !w.write || len(other[w.field]) == 0 {
 				continue
 			}
-			if exempt(w) {
+			if exempt(wch, w) {
 				nEx++
 				continue
 			}
-			users := other[w.field]
 			// a function in both groups conflicts with itself only through another function's use
+			var users []c17Eff
+			for _, u := range other[w.field] {
+				if !exempt(och, u) {
+					users = append(users, u)
+				}
+			}
 			if len(users) == 0 {
 				continue
 			}
-			sig := c17guardSig(w.fn, w.in, streamT)
-			key := fmt.Sprintf("Stream.%s@%s[%s]", w.field.Name(), fnName(w.fn), sig)
 			u := users[0]
 			for _, x := range users {
 				if x.fn != w.fn {
@@ -541,14 +661,17 @@ func c17r3(c *Ctx) {
 			if u.write {
 				kind = "writes"
 			}
-			cf := found[key]
-			cf.key, cf.pos = key, w.in.Pos()
-			cf.msg += fmt.Sprintf("%s side writes Stream.%s in %s (when: %s) while the %s side %s it (e.g. %s); ", wside, w.field.Name(), fnName(w.fn), sig, oside, kind, fnName(u.fn))
-			found[key] = cf
+			for _, at := range wch.attribute(w.fn, w.in, 0) {
+				key := fmt.Sprintf("Stream.%s@%s[%s]", w.field.Name(), fnName(at.fn), at.sig)
+				cf := found[key]
+				cf.key, cf.pos = key, w.in.Pos()
+				cf.msg += fmt.Sprintf("%s side writes Stream.%s in %s (when: %s) while the %s side %s it (e.g. %s); ", wside, w.field.Name(), fnName(w.fn), at.sig, oside, kind, fnName(u.fn))
+				found[key] = cf
+			}
 		}
 	}
-	check("send", "receive", send, recv)
-	check("receive", "send", recv, send)
+	check("send", "receive", sendCh, recvCh, send, recv)
+	check("receive", "send", recvCh, sendCh, recv, send)
 	var keys []string
 	for k := range found {
 		keys = append(keys, k)
@@ -565,7 +688,7 @@ func c17r3(c *Ctx) {
 	if len(keys) == 0 {
 		c.Ok(rule, "partition", "send-side writes and receive-side uses are disjoint (finalizer no-op writes excepted)", token.NoPos)
 	}
-	c.Note("%s: %d finalizer accesses exempted as no-ops after key installation (premises hold: %t)", rule, nEx, premiseOK)
+	c.Note("%s: %d accesses exempted as no-ops after key installation: reachable only under gcm != nil and a frozen digest == nil (premises hold: %t)", rule, nEx, premiseOK)
 	c.Note("%s: mutation of the object a field points to through a method call (hash.Hash.Write on sendDigest/recvDigest) is counted as a read of the field; each digest object is used by one direction only until it is frozen under the exempted nil test", rule)
 }
 
